@@ -4,9 +4,9 @@ package props
 
 import (
 	"bytes"
-	"net/url"
 	"encoding/json"
 	"fmt"
+	"net/url"
 	"regexp"
 	"sort"
 	"strings"
@@ -227,6 +227,62 @@ func c16Location(cs c16Case, via string) (ds []disc) {
 	return
 }
 
+// c16CrossServers: what a Host value means is decided by the bases of the server that receives the
+// request, not by what another server in the same process made of that value before.
+func c16CrossServers() (ds []disc) {
+	a := backends.Must(backends.Mem, backends.Options{HostBases: []string{"a.example"}})
+	defer a.Close()
+	b := backends.Must(backends.Mem, backends.Options{HostBases: []string{"b.example", "deep.a.example"}})
+	defer b.Close()
+	for name, st := range map[string]*backends.Stack{"A": a, "B": b} {
+		for _, bk := range []string{"bk0", "bk1"} {
+			if r := s3x.Do(st.Handler, &s3x.Req{Method: "PUT", Host: "localhost", Path: "/" + bk}); r.Status != 200 {
+				return dsc("cross-setup", "server %s: create %s: %s", name, bk, r)
+			}
+			if r := s3x.Do(st.Handler, &s3x.Req{Method: "PUT", Host: "localhost", Path: "/" + bk + "/obj", Body: []byte(name + ":" + bk + "/obj")}); r.Status != 200 {
+				return dsc("cross-setup", "server %s: put: %s", name, r)
+			}
+		}
+	}
+	type probe struct {
+		host, path string
+		// expected answer per server: body of a 200, or "" for "no such bucket/key"
+		onA, onB string
+	}
+	get := func(st *backends.Stack, p probe) string {
+		r := s3x.Do(st.Handler, &s3x.Req{Method: "GET", Host: p.host, Path: p.path})
+		if r.Status == 200 {
+			return string(r.Body)
+		}
+		return ""
+	}
+	// each round: a host that is <label>.<base> for one server only, asked of that server first or last
+	for round, order := range [][2]string{{"A", "B"}, {"B", "A"}} {
+		lbl := fmt.Sprintf("bk%d", round%2)
+		probes := []probe{
+			{lbl + ".a.example", "/obj", "A:" + lbl + "/obj", ""},
+			{lbl + ".a.example", "/" + lbl + "/obj", "", "B:" + lbl + "/obj"},
+			{lbl + ".b.example", "/obj", "", "B:" + lbl + "/obj"},
+			{lbl + ".b.example", "/" + lbl + "/obj", "A:" + lbl + "/obj", ""},
+			{lbl + ".deep.a.example", "/obj", "", "B:" + lbl + "/obj"},
+			{lbl + ".deep.a.example", "/" + lbl + "/obj", "A:" + lbl + "/obj", ""},
+		}
+		for _, p := range probes {
+			for _, who := range order {
+				st, want := a, p.onA
+				if who == "B" {
+					st, want = b, p.onB
+				}
+				if got := get(st, p); got != want {
+					ds = append(ds, dsc("cross-server-routing", "round %d (order %v): server %s answers GET %s with Host %q with %q, want %q (A has the base a.example, B the bases b.example and deep.a.example)", round, order, who, p.path, p.host, got, want)...)
+					return
+				}
+			}
+		}
+	}
+	return nil
+}
+
 func c16Replay(check string, raw json.RawMessage) ([]disc, error) {
 	var cs c16Case
 	if err := json.Unmarshal(raw, &cs); err != nil {
@@ -234,6 +290,9 @@ func c16Replay(check string, raw json.RawMessage) ([]disc, error) {
 	}
 	if check == "slashes" {
 		return c16Slashes(cs), nil
+	}
+	if check == "cross-servers" {
+		return c16CrossServers(), nil
 	}
 	if check == "location" {
 		return c16Location(cs, cs.FallbackHost), nil
@@ -380,6 +439,11 @@ func c16Run(t *testing.T, c *evid.Collector) {
 			{Method: "HEAD", Bucket: "bk0", Key: "d/x", Family: "headObject"}, {Method: "GET", Bucket: "bk1", Key: "a", Query: s3x.Q("versionId", "null"), Family: "getVersion"},
 			{Method: "GET", Bucket: "bk0", Key: "a", Query: s3x.Q("uploadId", "1"), Family: "listParts"}, {Method: "GET", Bucket: "bk1", Query: s3x.Q("versions", s3x.Bare), Family: "listVersions"},
 			{Method: "PUT", Bucket: "bk2", Family: "createBucket"}, {Method: "DELETE", Bucket: "bk1", Family: "deleteBucket"}, {Method: "POST", Bucket: "bk0", Key: "up", Query: s3x.Q("uploads", s3x.Bare), Family: "initiate"},
+		}
+		{
+			cs := c16Case{Mode: "bases", Bases: []string{"a.example"}, Base: "a.example", FallbackHost: "bk0.b.example"}
+			c.Case(evid.FP("cross-servers"), true, func() interface{} { return cs }, "check:cross-servers", "src:fixed")
+			report(c, "cross-servers", c16CrossServers(), cs)
 		}
 		for _, m := range c16Modes {
 			cs := m
